@@ -84,6 +84,7 @@ type Term struct {
 	K       uint64
 	ID      int
 	Name    string // for OVar
+	NonBV   bool   // contains floating point or uninterpreted function terms
 }
 
 type termKey struct {
@@ -137,6 +138,8 @@ func (s *TermStore) mk(op Op, sort Sort, w uint8, a, b, c *Term, k uint64) *Term
 	t, ok := s.tab[key]
 	if !ok {
 		t = &Term{Op: op, Sort: sort, W: w, A: a, B: b, C: c, K: k, ID: len(s.all)}
+		t.NonBV = sort == SF32 || sort == SF64 || op == OUF || op >= OFPFromBits ||
+			(a != nil && a.NonBV) || (b != nil && b.NonBV) || (c != nil && c.NonBV)
 		s.all = append(s.all, t)
 		s.tab[key] = t
 	}
@@ -182,7 +185,7 @@ func Var(name string, sort Sort, w uint8) *Term {
 		}
 		return t
 	}
-	t := &Term{Op: OVar, Sort: sort, W: w, ID: len(ts.all), Name: name, K: uint64(len(ts.vars))}
+	t := &Term{Op: OVar, Sort: sort, W: w, ID: len(ts.all), Name: name, K: uint64(len(ts.vars)), NonBV: sort == SF32 || sort == SF64}
 	ts.all = append(ts.all, t)
 	ts.vars = append(ts.vars, t)
 	ts.byName[name] = t
